@@ -26,6 +26,7 @@ LEVEL_TEXT = (
     ' The product analysis of C10 contributes the families that are about *which* sampler runs: schedule-dependence of the sampler sequence and a later batch not run by the agent-chosen sampler; the bootstrap-position helper is decided semantically by small-scope abstract evaluation over line-ups of 1-3 samplers of 3 classes.'
     " The constructor truth table also has the row 'empty sequence of samplers together with a scheduler' (still both given: ValueError), decided on concrete sequences when the validator looks inside the argument."
     ' The label rule of C02 is included (the sampler recorded for a batch, and the number of rows attributed to it, are those of the sampler the scheduler handed out).'
+    " The field-plumbing rule of C04 kept to the batch counter is included (batch i is counted across restores)."
 )
 TECHNIQUE = "AST/CFG path queries + formula normal form + exhaustive predicate-domain abstract evaluation"
 
